@@ -487,3 +487,28 @@ seeded("c17-dictimporter-parent-truthy", ["C17"], [(DIM, "        node = self.no
 benign("c17-children-truthiness-of-sequence", ["C17"], both("        children = self.__children_or_empty\n        if children:", "        children = self.__children_or_empty\n        if len(children) > 0:"))
 benign("c17-walker-identity-flipped", ["C17"], [(WK, "if start.root is not end.root:", "if not (end.root is start.root):")])
 benign("c17-id-membership", ["C17"], [(WK, "        if start is common[-1]:", "        if id(start) in [id(c) for c in common[-1:]]:")])
+seeded("c14-attr-filter-default-none", ["C14"], [(SE, "    try:\n        return getattr(node, name) == value\n    except AttributeError:\n        return False", "    return getattr(node, name, None) == value")], ["F4"])
+benign("c05-zigzag-parity-counter", ["C05", "C06"], [(ZZ, """            _iter = LevelOrderGroupIter(children[0], filter_, stop, maxlevel)
+            while True:
+                try:
+                    yield next(_iter)
+                    yield tuple(reversed(next(_iter)))
+                except StopIteration:
+                    break
+""", """            level = 0
+            for group in LevelOrderGroupIter(children[0], filter_, stop, maxlevel):
+                yield tuple(reversed(group)) if level % 2 else group
+                level += 1
+""")])
+seeded("c05-zigzag-parity-from-depth", ["C05"], [(ZZ, """            _iter = LevelOrderGroupIter(children[0], filter_, stop, maxlevel)
+            while True:
+                try:
+                    yield next(_iter)
+                    yield tuple(reversed(next(_iter)))
+                except StopIteration:
+                    break
+""", """            level = children[0].depth
+            for group in LevelOrderGroupIter(children[0], filter_, stop, maxlevel):
+                yield tuple(reversed(group)) if level % 2 else group
+                level += 1
+""")], ["I2", "I1"])
